@@ -7,7 +7,7 @@
    exactly what the generic loops compute on every in-range argument.  Hence
    index_of / position_of are inverse bijections for every D, not only for the two
    constructors Grid::new_2d / new_3d (MetricsGridProofs.v proves those directly). *)
-From Coupe Require Import Lib.Prelude Model.Metrics.
+From Coupe Require Import Lib.Prelude Model.Metrics Proofs.MetricsGridProofs.
 Open Scope nat_scope.
 
 (* the box: one coordinate per side, each below its side *)
@@ -131,3 +131,122 @@ Example grid_generic_nonvacuous :
   /\ position_of [2; 3; 4; 5] 77 = [1; 2; 0; 3]
   /\ index_of [2; 3; 4; 5] [1; 2; 0; 3] = 77.
 Proof. repeat split; try reflexivity. repeat constructor. Qed.
+
+(* ------------------------------------------------ GridNeighbors, every dimension D *)
+
+Lemma In_somes_map {A B} (f : A -> option B) (l : list A) (u : B) :
+  In u (somes (map f l)) <-> exists i, In i l /\ f i = Some u.
+Proof.
+  induction l as [|x t IH]; cbn [map somes].
+  - split; [intros [] | intros (i & [] & _)].
+  - destruct (f x) as [b|] eqn:E.
+    + cbn [In]. rewrite IH. split.
+      * intros [-> | (i & Hi & Hf)]; [exists x; split; [left; reflexivity | exact E] | exists i; split; [right; exact Hi | exact Hf]].
+      * intros (i & [-> | Hi] & Hf); [left; congruence | right; exists i; split; assumption].
+    + rewrite IH. split.
+      * intros (i & Hi & Hf). exists i. split; [right; exact Hi | exact Hf].
+      * intros (i & [-> | Hi] & Hf); [congruence | exists i; split; assumption].
+Qed.
+
+(* a step of one along axis [a] from [pos]: the coordinate [c] there becomes [c'] *)
+Definition axis_step (dims pos : list nat) (a c' : nat) : Prop :=
+  exists c s, nth_opt pos a = Some c /\ nth_opt dims a = Some s
+              /\ ((0 < c /\ c' = c - 1 /\ c' < s) \/ (c' = c + 1 /\ c' < s)).
+
+Lemma in_box_gen_set_nth dims : forall pos a c' s,
+  in_box_gen dims pos -> nth_opt dims a = Some s -> c' < s -> in_box_gen dims (set_nth pos a c').
+Proof.
+  unfold in_box_gen. induction dims as [|s0 t IH]; intros pos a c' s Hb Hs Hc.
+  - destruct a; discriminate Hs.
+  - inversion Hb as [|x s' pt t' Hx Hr]; subst. destruct a as [|a]; cbn [set_nth nth_opt] in *.
+    + injection Hs as ->. constructor; assumption.
+    + constructor; [assumption | eapply IH; eassumption].
+Qed.
+
+(* the iterator of Grid<D>::neighbors, for every D: u is yielded for the cell v iff u is the index
+   of the position of v moved by exactly one along exactly one axis, staying inside the grid *)
+Theorem grid_neighbors_spec_generic dims v u :
+  sides_pos dims -> v < grid_len dims ->
+  (In u (grid_neighbors dims v)
+   <-> exists a c', axis_step dims (position_of dims v) a c'
+                    /\ u = index_of dims (set_nth (position_of dims v) a c')).
+Proof.
+  intros Hpos Hv. unfold grid_neighbors. cbv zeta.
+  destruct (grid_index_bij_generic dims Hpos) as [F _]. destruct (F v Hv) as [_ Hb].
+  pose proof (in_box_gen_length _ _ Hb) as Hl.
+  set (pos := position_of dims v) in *.
+  rewrite In_somes_map. split.
+  - intros (i & Hi & Hf). apply in_seq in Hi.
+    assert (Ha : i / 2 < length dims) by (apply Nat.div_lt_upper_bound; lia).
+    destruct (nth_opt_lt pos (i / 2)) as [c Hc]; [lia|].
+    destruct (nth_opt_lt dims (i / 2) Ha) as [s Hs].
+    pose proof (Nat.div_mod_eq i 2) as Hdm.
+    assert (Hm : i mod 2 < 2) by (apply Nat.mod_upper_bound; lia).
+    destruct (Nat.eq_dec (i mod 2) 0) as [E0|E1].
+    + replace i with (2 * (i / 2)) in Hf by lia.
+      rewrite (neighbor_step_even dims pos (i / 2) c s Hc Hs) in Hf.
+      destruct (Nat.eqb c 0) eqn:Ec; [discriminate|]. apply Nat.eqb_neq in Ec.
+      destruct (Nat.leb s (c - 1)) eqn:El; [discriminate|]. apply Nat.leb_gt in El.
+      injection Hf as <-. exists (i / 2), (c - 1). split; [|reflexivity].
+      exists c, s. repeat split; try assumption. left. repeat split; lia.
+    + replace i with (2 * (i / 2) + 1) in Hf by lia.
+      rewrite (neighbor_step_odd dims pos (i / 2) c s Hc Hs) in Hf.
+      destruct (Nat.leb s (c + 1)) eqn:El; [discriminate|]. apply Nat.leb_gt in El.
+      injection Hf as <-. exists (i / 2), (c + 1). split; [|reflexivity].
+      exists c, s. repeat split; try assumption. right. split; [reflexivity | lia].
+  - intros (a & c' & (c & s & Hc & Hs & Hstep) & ->).
+    pose proof (nth_opt_Some _ _ _ Hs) as Ha.
+    destruct Hstep as [(H0 & -> & Hlt) | (-> & Hlt)].
+    + exists (2 * a). split; [apply in_seq; lia|].
+      rewrite (neighbor_step_even dims pos a c s Hc Hs).
+      destruct (Nat.eqb c 0) eqn:Ec; [apply Nat.eqb_eq in Ec; lia|].
+      destruct (Nat.leb s (c - 1)) eqn:El; [apply Nat.leb_le in El; lia | reflexivity].
+    + exists (2 * a + 1). split; [apply in_seq; lia|].
+      rewrite (neighbor_step_odd dims pos a c s Hc Hs).
+      destruct (Nat.leb s (c + 1)) eqn:El; [apply Nat.leb_le in El; lia | reflexivity].
+Qed.
+
+(* hence, for every D: every neighbour is a cell of the grid, and its position is the position of
+   v with exactly one coordinate changed by exactly one *)
+Theorem grid_neighbors_are_adjacent_cells dims v u :
+  sides_pos dims -> v < grid_len dims -> In u (grid_neighbors dims v) ->
+  u < grid_len dims
+  /\ exists a c', axis_step dims (position_of dims v) a c'
+                  /\ position_of dims u = set_nth (position_of dims v) a c'.
+Proof.
+  intros Hpos Hv Hin. apply (grid_neighbors_spec_generic dims v u Hpos Hv) in Hin.
+  destruct Hin as (a & c' & Hstep & ->).
+  destruct (grid_index_bij_generic dims Hpos) as [F G]. destruct (F v Hv) as [_ Hb].
+  assert (Hb' : in_box_gen dims (set_nth (position_of dims v) a c')).
+  { destruct Hstep as (c & s & _ & Hs & [(_ & _ & Hlt) | (_ & Hlt)]); eapply in_box_gen_set_nth; eassumption. }
+  destruct (G _ Hb') as [L E]. split; [exact L|]. exists a, c'. split; [exact Hstep | exact E].
+Qed.
+
+(* and conversely every cell at one step along one axis is yielded *)
+Theorem grid_adjacent_cells_are_neighbors dims v u a c' :
+  sides_pos dims -> v < grid_len dims -> u < grid_len dims ->
+  axis_step dims (position_of dims v) a c' ->
+  position_of dims u = set_nth (position_of dims v) a c' ->
+  In u (grid_neighbors dims v).
+Proof.
+  intros Hpos Hv Hu Hstep E. apply (grid_neighbors_spec_generic dims v u Hpos Hv).
+  exists a, c'. split; [exact Hstep|]. rewrite <- E.
+  destruct (grid_index_bij_generic dims Hpos) as [F _]. destruct (F u Hu) as [Eu _]. symmetry. exact Eu.
+Qed.
+
+(* no self loop, in any dimension *)
+Corollary grid_neighbors_irreflexive dims v :
+  sides_pos dims -> v < grid_len dims -> ~ In v (grid_neighbors dims v).
+Proof.
+  intros Hpos Hv Hin.
+  destruct (grid_neighbors_are_adjacent_cells dims v v Hpos Hv Hin) as (_ & a & c' & (c & s & Hc & Hs & Hstep) & E).
+  pose proof (nth_opt_Some _ _ _ Hc) as Ha.
+  assert (H1 : nth_opt (position_of dims v) a = Some c') by (rewrite E at 1; apply nth_opt_set_nth_same; exact Ha).
+  rewrite Hc in H1. injection H1 as H1. lia.
+Qed.
+
+Example grid_neighbors_generic_nonvacuous :
+  grid_neighbors [2; 3; 4; 5] 77 = [76; 75; 83; 53; 101]
+  /\ map (position_of [2; 3; 4; 5]) [76; 75; 83; 53; 101]
+     = [[0; 2; 0; 3]; [1; 1; 0; 3]; [1; 2; 1; 3]; [1; 2; 0; 2]; [1; 2; 0; 4]].
+Proof. vm_compute. split; reflexivity. Qed.
